@@ -8,6 +8,7 @@ package main
 
 import (
 	"bufio"
+	"context"
 	"encoding/json"
 	"flag"
 	"fmt"
@@ -209,10 +210,15 @@ func main() {
 		wg      sync.WaitGroup
 	)
 
-	runChild := func(args ...string) {
+	// watchdog: a child that is still running well after the deadline hangs in
+	// the code under test (or the sandbox stalls); that is a harness error here
+	runChild := func(limit time.Time, args ...string) {
 		defer wg.Done()
 
-		cmd := exec.Command(bin, append([]string{"-id", *id, "-tier", *tier}, args...)...)
+		ctx, cancel := context.WithDeadline(context.Background(), limit)
+		defer cancel()
+
+		cmd := exec.CommandContext(ctx, bin, append([]string{"-id", *id, "-tier", *tier}, args...)...)
 		cmd.Stderr = os.Stderr
 
 		out, err := cmd.StdoutPipe()
@@ -287,7 +293,7 @@ func main() {
 
 		// the seed only rotates which process gets which shard
 		shard := (k + seed%n + n) % n
-		go runChild("-worker", strconv.Itoa(shard), "-nworkers", strconv.Itoa(n), "-deadline", strconv.FormatInt(deadline.UnixNano(), 10))
+		go runChild(deadline.Add(90*time.Second), "-worker", strconv.Itoa(shard), "-nworkers", strconv.Itoa(n), "-deadline", strconv.FormatInt(deadline.UnixNano(), 10))
 	}
 
 	wg.Wait()
@@ -295,7 +301,7 @@ func main() {
 	// the serial non-administrator part runs alone (no competition for its thread games)
 	if !*noPerm {
 		wg.Add(1)
-		runChild("-permworker")
+		runChild(time.Now().Add(180*time.Second), "-permworker")
 	}
 
 	// ---- aggregate
@@ -344,7 +350,7 @@ func main() {
 		prefix++
 	}
 
-	exhaustive := prefix == len(trees) && (*noPerm || permDone == len(permScenarios())) && len(buildFailed) == 0
+	exhaustive := prefix == len(trees) && !*noPerm && permDone == len(permScenarios()) && len(buildFailed) == 0
 
 	totStates, totEvals := 0, 0
 	for _, v := range states {
@@ -378,7 +384,16 @@ func main() {
 	bound := fmt.Sprintf("%s; trees in canonical order: %d of %d completed (first %d contiguous); non-administrator scenarios %d of %d",
 		u.Label, len(done), len(trees), prefix, permDone, len(permScenarios()))
 
-	code := rep.Finish()
+	// harness errors are never a verdict: no VIOLATION lines then
+	code := 0
+	if len(harness) == 0 {
+		code = rep.Finish()
+	}
+
+	matched := rep.KnownMatched()
+	if matched == nil {
+		matched = []string{}
+	}
 
 	for k, v := range buildFailed {
 		fmt.Printf("NOTE: property=%s tree could not be materialised with plain calls, not compared: %s (%d trees)\n", *id, k, v)
@@ -396,7 +411,7 @@ func main() {
 			"states_per_fs": states, "evaluations_per_func": evals, "oracle_result_classes": classes,
 			"trees_in_universe": len(trees), "trees_completed": len(done), "workers": n,
 			"not_materialised": buildFailed, "violation_instances": instances, "violation_signatures": sc,
-			"known_findings_matched": rep.KnownMatched(), "budget_s": budget,
+			"known_findings_matched": matched, "budget_s": budget,
 		},
 		Assumptions: []string{
 			"oracle = path/filepath.Glob, os.ReadDir, path/filepath.WalkDir of the installed toolchain (" + runtime.Version() + ") on tmpfs as root; Glob errors are compared with what filepath.Glob reports for the same pattern on the identical tree",
